@@ -67,6 +67,53 @@ theorem good_truncFrac_netExp {neg : Bool} {vt k : Nat} {kneg fo : Bool} {f j fi
   · rw [← h1]; exact h
   · rw [h2] at h; rw [h3]; simpa using h
 
+/-! ### conversions from the `ClassOutcome` statements of the shape theorems -/
+
+theorem good_of_class_netExp {neg : Bool} {v k : Nat} {kneg fo : Bool} {f fin : Nat} {res : Option Res}
+    (h : ClassOutcome neg v (netExp fo k kneg f).1 (netExp fo k kneg f).2 fin res) :
+    Good neg (valFrac v k kneg f).1 (valFrac v k kneg f).2 fin res := by
+  have hg := good_of_class h
+  have := good_truncFrac_netExp (neg := neg) (vt := v) (k := k) (kneg := kneg) (fo := fo) (f := f) (j := 0) (fin := fin)
+    (res := res) (by
+      unfold truncFrac
+      generalize (netExp fo k kneg f).1 = X at *
+      generalize (netExp fo k kneg f).2 = FLAG at *
+      cases FLAG <;> simpa using hg)
+  simpa using this
+
+/-- appending `j` zero fraction digits does not change the value -/
+theorem good_valFrac_zeros {neg : Bool} {M k : Nat} {eneg : Bool} {f j fin : Nat} {res : Option Res} (hM : 0 < M)
+    (h : Good neg (valFrac M k eneg f).1 (valFrac M k eneg f).2 fin res) :
+    Good neg (valFrac (M * 10 ^ j) k eneg (f + j)).1 (valFrac (M * 10 ^ j) k eneg (f + j)).2 fin res := by
+  have h10 : ∀ t : Nat, 0 < 10 ^ t := fun t => Nat.pow_pos (by decide)
+  unfold valFrac at h ⊢
+  cases eneg with
+  | true =>
+    simp only [if_true] at h ⊢
+    have := good_scale hM (h10 _) (h10 j) h
+    rw [← Nat.pow_add] at this
+    rw [show k + (f + j) = k + f + j by omega]; exact this
+  | false =>
+    simp only [Bool.false_eq_true, if_false, ge_iff_le] at h ⊢
+    by_cases h1 : f ≤ k
+    · rw [if_pos h1] at h
+      by_cases h2 : f + j ≤ k
+      · rw [if_pos h2]
+        have e : M * 10 ^ j * 10 ^ (k - (f + j)) = M * 10 ^ (k - f) := by
+          rw [Nat.mul_assoc, ← Nat.pow_add]; congr 2; omega
+        rw [e]; exact h
+      · rw [if_neg h2]
+        have := good_scale (Nat.mul_pos hM (h10 _)) (by decide : 0 < 1) (h10 (f + j - k)) h
+        have e : M * 10 ^ (k - f) * 10 ^ (f + j - k) = M * 10 ^ j := by
+          rw [Nat.mul_assoc, ← Nat.pow_add]; congr 2; omega
+        rw [e, Nat.one_mul] at this
+        exact this
+    · rw [if_neg h1] at h
+      rw [if_neg (by omega)]
+      have := good_scale hM (h10 _) (h10 j) h
+      rw [← Nat.pow_add] at this
+      rw [show f + j - k = f - k + j by omega]; exact this
+
 /-- what a nonzero-leading digit string is worth -/
 theorem decVal_bounds (K : List Nat) (k1 : Nat) (kt : List Nat) (hK : K = k1 :: kt) (h1 : isNonZeroDigit k1 = true)
     (hd : AllDigits K) : 10 ^ (K.length - 1) ≤ decVal K ∧ decVal K < 10 ^ K.length ∧ 0 < decVal K := by
@@ -119,7 +166,8 @@ theorem glueD_end (c : List Nat) (e : Nat) (neg : Bool) (stop start : Nat) (fo :
     (hep : sub32 (sub32 stop start) (b2n (!fo && true)) = n)
     (hen : (if fo then add32 n (sub32 (sub32 start dotOff) 1) else if true then sub32 (sub32 stop dotOff) 1 else 0) = f)
     (hf : f < 2 ^ 31)
-    (htr : R = [] ∨ (10 ^ 16 ≤ decVal K ∧ 10 ^ 17 * decVal (K ++ R) < (10 ^ 17 + 1) * (decVal K * 10 ^ R.length))) :
+    (htr : decVal (K ++ R) = decVal K * 10 ^ R.length ∨
+      (10 ^ 16 ≤ decVal K ∧ 10 ^ 17 * decVal (K ++ R) < (10 ^ 17 + 1) * (decVal K * 10 ^ R.length))) :
     Good neg (valFrac (decVal (K ++ R)) 0 false (f + R.length)).1 (valFrac (decVal (K ++ R)) 0 false (f + R.length)).2 e
       (finishReal c e neg (decVal K) stop stop start fo true dotOff) := by
   obtain ⟨hlo, hhi, hv0⟩ := decVal_bounds K k1 kt hK hk1 hKd
@@ -133,17 +181,13 @@ theorem glueD_end (c : List Nat) (e : Nat) (neg : Bool) (stop start : Nat) (fo :
     (Or.inl rfl) n f hep hen hf]
   have hX : (netExp fo 0 false f).1 < 2 ^ 31 := by
     unfold netExp; simp; split <;> simp <;> omega
-  apply good_truncFrac_netExp (fo := fo)
-  rcases htr with hnil | ⟨h16, hrel⟩
-  · subst hnil
-    have hcl := good_of_class (realResult_class_all neg (decVal K) n (netExp fo 0 false f).1 (netExp fo 0 false f).2 e
+  rcases htr with hex | ⟨h16, hrel⟩
+  · have hcl := good_of_class_netExp (realResult_class_all neg (decVal K) n (netExp fo 0 false f).1 (netExp fo 0 false f).2 e
       hv0 hv64 hlo hhi hn1 hn19 hX)
-    simp only [List.append_nil, List.length_nil]
-    unfold truncFrac
-    generalize (netExp fo 0 false f).1 = X at *
-    generalize (netExp fo 0 false f).2 = FLAG at *
-    cases FLAG <;> simpa using hcl
-  · have ht1 := (decVal_trunc K R hR).1
+    rw [hex]
+    exact good_valFrac_zeros hv0 hcl
+  · apply good_truncFrac_netExp (fo := fo)
+    have ht1 := (decVal_trunc K R hR).1
     exact realResult_trunc neg (decVal K) n _ _ e R.length (decVal (K ++ R)) h16 hv64 hlo hhi hn1 (by omega) hX ht1 hrel
 
 /-- dot regime, an exponent follows the dropped fraction digits `R` -/
@@ -157,7 +201,8 @@ theorem glueD_exp (c : List Nat) (e : Nat) (neg : Bool) (stop start : Nat) (fo :
     (hep : sub32 (sub32 stop start) (b2n (!fo && true)) = n)
     (hen : (if fo then add32 n (sub32 (sub32 start dotOff) 1) else if true then sub32 (sub32 stop dotOff) 1 else 0) = f)
     (hbound : f + R.length + n + 400 ≤ 100000000)
-    (htr : R = [] ∨ (10 ^ 16 ≤ decVal K ∧ 10 ^ 17 * decVal (K ++ R) < (10 ^ 17 + 1) * (decVal K * 10 ^ R.length))) :
+    (htr : decVal (K ++ R) = decVal K * 10 ^ R.length ∨
+      (10 ^ 16 ≤ decVal K ∧ 10 ^ 17 * decVal (K ++ R) < (10 ^ 17 + 1) * (decVal K * 10 ^ R.length))) :
     Good neg (valFrac (decVal (K ++ R)) (decVal ks) (decide (es = [45])) (f + R.length)).1
       (valFrac (decVal (K ++ R)) (decVal ks) (decide (es = [45])) (f + R.length)).2 e
       (finishReal c e neg (decVal K) stop stop start fo true dotOff) := by
@@ -178,17 +223,13 @@ theorem glueD_exp (c : List Nat) (e : Nat) (neg : Bool) (stop start : Nat) (fo :
       split
       · simp; omega
       · split <;> simp <;> omega
-    apply good_truncFrac_netExp (fo := fo)
-    rcases htr with hnil | ⟨h16, hrel⟩
-    · subst hnil
-      have hcl := good_of_class (realResult_class_all neg (decVal K) n (netExp fo (decVal ks) (decide (es = [45])) f).1
+    rcases htr with hex | ⟨h16, hrel⟩
+    · have hcl := good_of_class_netExp (realResult_class_all neg (decVal K) n (netExp fo (decVal ks) (decide (es = [45])) f).1
         (netExp fo (decVal ks) (decide (es = [45])) f).2 e hv0 hv64 hlo hhi hn1 hn19 hX)
-      simp only [List.append_nil, List.length_nil]
-      unfold truncFrac
-      generalize (netExp fo (decVal ks) (decide (es = [45])) f).1 = X at *
-      generalize (netExp fo (decVal ks) (decide (es = [45])) f).2 = FLAG at *
-      cases FLAG <;> simpa using hcl
-    · exact realResult_trunc neg (decVal K) n _ _ e R.length (decVal (K ++ R)) h16 hv64 hlo hhi hn1 (by omega) hX t1 hrel
+      rw [hex]
+      exact good_valFrac_zeros hv0 hcl
+    · apply good_truncFrac_netExp (fo := fo)
+      exact realResult_trunc neg (decVal K) n _ _ e R.length (decVal (K ++ R)) h16 hv64 hlo hhi hn1 (by omega) hX t1 hrel
   · rw [finishReal_exp_sat c e neg _ stop stop start fo true dotOff (stop + R.length) m es ks hdr (by omega) hm hmE
       hes hks hk0 hu hend (by omega) hbig]
     rw [hQ]
@@ -199,5 +240,91 @@ theorem glueD_exp (c : List Nat) (e : Nat) (neg : Bool) (stop start : Nat) (fo :
       rw [Nat.pow_add]
       exact Nat.lt_of_lt_of_le t2 (Nat.mul_le_mul_right _ (by omega))
     exact ⟨_, rfl, rfl, Or.inl ⟨rfl, valFrac_out_of_range _ _ _ n R.length f hvtlo hvt hn1 hbig (by omega)⟩⟩
+
+/-! ### integer regime -/
+
+theorem good_truncFrac_intExp {neg : Bool} {vt k : Nat} {kneg : Bool} {g F fin : Nat} {res : Option Res}
+    (h : Good neg (truncFrac vt (intExp k kneg g).1 (intExp k kneg g).2 (g + F)).1
+      (truncFrac vt (intExp k kneg g).1 (intExp k kneg g).2 (g + F)).2 fin res) :
+    Good neg (valFrac vt k kneg F).1 (valFrac vt k kneg F).2 fin res := by
+  unfold truncFrac intExp at h
+  unfold valFrac
+  cases kneg with
+  | false =>
+    simp only [Bool.not_false, if_true, Bool.false_eq_true, if_false, ge_iff_le] at h ⊢
+    by_cases hk : F ≤ k
+    · rw [if_pos hk]
+      rw [if_pos (by omega), show k + g - (g + F) = k - F by omega] at h
+      exact h
+    · rw [if_neg hk]
+      rw [if_neg (by omega), show g + F - (k + g) = F - k by omega] at h
+      exact h
+  | true =>
+    simp only [Bool.not_true, Bool.false_eq_true, if_false, if_true] at h ⊢
+    by_cases hkg : k ≤ g
+    · simp only [hkg, if_true, Bool.false_eq_true, if_false, ge_iff_le] at h
+      by_cases hc : g + F ≤ g - k
+      · have hk0 : k = 0 := by omega
+        have hF0 : F = 0 := by omega
+        subst hk0; subst hF0
+        rw [if_pos hc] at h
+        simpa using h
+      · rw [if_neg hc, show g + F - (g - k) = k + F by omega] at h
+        exact h
+    · simp only [hkg, if_false, if_true] at h
+      rw [show k - g + (g + F) = k + F by omega] at h
+      exact h
+
+/-- the common part of the integer-regime glue: from `realResult` on the kept mantissa to `Good` on the exact value -/
+theorem glueI_core (neg : Bool) (K R F : List Nat) (k1 : Nat) (kt : List Nat) (n k : Nat) (kneg : Bool) (fin : Nat)
+    (hK : K = k1 :: kt) (hk1 : isNonZeroDigit k1 = true) (hKd : AllDigits K) (hn : K.length = n) (hn19 : 19 ≤ n)
+    (hn20 : n ≤ 20) (hv64 : decVal K < 2 ^ 64) (hR : AllDigits R) (hF : AllDigits F)
+    (hX : (intExp k kneg R.length).1 < 2 ^ 31) :
+    Good neg (valFrac (decVal (K ++ R ++ F)) k kneg F.length).1 (valFrac (decVal (K ++ R ++ F)) k kneg F.length).2 fin
+      (realResult neg (decVal K) n (intExp k kneg R.length).1 (intExp k kneg R.length).2 fin) := by
+  obtain ⟨hlo, hhi, hv0⟩ := decVal_bounds K k1 kt hK hk1 hKd
+  rw [hn] at hlo hhi
+  have h18 : 10 ^ 18 ≤ decVal K := Nat.le_trans (Nat.pow_le_pow_right (by decide) (by omega)) hlo
+  have hRF : AllDigits (R ++ F) := by
+    intro y hy
+    rcases List.mem_append.1 hy with h | h
+    · exact hR y h
+    · exact hF y h
+  obtain ⟨t1, t2⟩ := decVal_trunc K (R ++ F) hRF
+  rw [← List.append_assoc] at t1 t2
+  rw [List.length_append] at t1 t2
+  apply good_truncFrac_intExp
+  exact realResult_trunc neg (decVal K) n _ _ fin (R.length + F.length) (decVal (K ++ R ++ F))
+    (Nat.le_trans (by decide) h18) hv64 hlo hhi (by omega) hn20 hX t1
+    (trunc_rel_of_abs _ _ _ (Nat.le_trans (by decide) h18) t2)
+
+/-- the exponent part of a numeral text: absent, or `(e|E) [+-]? digits` -/
+def ExpPart (EP : List Nat) (es ks : List Nat) : Prop :=
+  (EP = [] ∧ es = [] ∧ ks = []) ∨
+  (∃ m, (m = 101 ∨ m = 69) ∧ EP = m :: (es ++ ks) ∧ (es = [] ∨ es = [43] ∨ es = [45]) ∧ AllDigits ks ∧ ks ≠ [])
+
+/-- dot regime: both continuations -/
+theorem glueD (c : List Nat) (e : Nat) (neg : Bool) (stop start : Nat) (fo : Bool) (dotOff : Nat)
+    (K : List Nat) (k1 : Nat) (kt R EP es ks : List Nat) (n f : Nat) (he : e < 2 ^ 32)
+    (hK : K = k1 :: kt) (hk1 : isNonZeroDigit k1 = true) (hKd : AllDigits K) (hn : K.length = n) (hn19 : n ≤ 19)
+    (hR : AllDigits R) (hur : unitsAt c e stop R) (hEP : ExpPart EP es ks)
+    (hEPu : unitsAt c e (stop + R.length) EP) (hQ : stop + R.length + EP.length = e)
+    (hep : sub32 (sub32 stop start) (b2n (!fo && true)) = n)
+    (hen : (if fo then add32 n (sub32 (sub32 start dotOff) 1) else if true then sub32 (sub32 stop dotOff) 1 else 0) = f)
+    (hbound : f + R.length + n + 400 ≤ 100000000)
+    (htr : decVal (K ++ R) = decVal K * 10 ^ R.length ∨
+      (10 ^ 16 ≤ decVal K ∧ 10 ^ 17 * decVal (K ++ R) < (10 ^ 17 + 1) * (decVal K * 10 ^ R.length))) :
+    Good neg (valFrac (decVal (K ++ R)) (decVal ks) (decide (es = [45])) (f + R.length)).1
+      (valFrac (decVal (K ++ R)) (decVal ks) (decide (es = [45])) (f + R.length)).2 e
+      (finishReal c e neg (decVal K) stop stop start fo true dotOff) := by
+  rcases hEP with ⟨rfl, rfl, rfl⟩ | ⟨m, hmE, rfl, hes, hks, hk0⟩
+  · simp only [List.length_nil, Nat.add_zero] at hQ
+    have := glueD_end c e neg stop start fo dotOff K k1 kt R n f he hK hk1 hKd hn hn19 hR hur hQ hep hen (by omega) htr
+    simpa [decVal] using this
+  · have hm : rd c e (stop + R.length) = some m := hEPu.1
+    have hu : unitsAt c e (stop + R.length + 1) (es ++ ks) := hEPu.2
+    simp only [List.length_cons, List.length_append] at hQ
+    exact glueD_exp c e neg stop start fo dotOff K k1 kt R n f m es ks he hK hk1 hKd hn hn19 hR hur hm hmE hes hks hk0 hu
+      (by omega) hep hen hbound htr
 
 end Qentem.StrToNum
